@@ -89,9 +89,12 @@ def analyse(case):
         c.preds[s_].append(p_)
         c.succs[p_].append(s_)
     c.extpred = {i: [] for i in range(c.n)}
+    c.extsucc = {i: [] for i in range(c.n)}
     for e in case.get('externals') or []:
         for i in e['succ']:
             c.extpred[i].append(e)
+        for i in e.get('succ_of') or []:
+            c.extsucc[i].append(e)
     c.leaves = [i for i in range(c.n) if not c.ch[i]]
     c.idx = {t['id']: i for i, t in enumerate(tasks)}
     # DFS (WBS) order
@@ -306,6 +309,8 @@ def judge(prop, case, acc):
         return
 
     acc.count('schedules_ok')
+    if case.get('task_caps'):
+        acc.count('schedules_with_task_dependent_capacity')
     if case['dir'] == 'fwd' and Clock.calls == clock0 and any(t['start'] is None and not t['milestone'] for t in case['tasks'] if True):
         acc.inconclusive.append('forward calc with unfixed tasks produced zero clock reads: the clock hook does not control the code')
 
@@ -395,8 +400,9 @@ def judge(prop, case, acc):
         if rt is None:
             continue
         for k, v in (t.get('attrs') or {}).items():
-            if getattr(rt, k, None) != v:
-                viol('C06', 'custom-attribute-lost', f'task {t["id"]} attr {k}: {getattr(rt, k, None)!r} != {v!r}')
+            got_ = getattr(rt, k, '<attribute missing>')
+            if got_ != v or type(got_) is not type(v):
+                viol('C06', 'custom-attribute-lost', f'task {t["id"]} attr {k}: {got_!r} != {v!r}')
         if rt.start is None or rt.end is None:
             viol('C06', 'task-without-dates', f'task {t["id"]} start={rt.start} end={rt.end}')
     if any(v[0] == 'C06' and 'without-dates' in v[1] for v in V) or len(T) != c.n or -1 in T:
@@ -762,6 +768,13 @@ def judge(prop, case, acc):
             if rt.end > case['date']:
                 viol('C09', 'ends-after-project-end', f'task {rt.id} ends {rt.end}, project end {case["date"]}')
             own_s, inh_s = eff_succ_tasks(case, c, i)
+            ext_s = [e for x in [i] + c.anc[i] for e in c.extsucc[x]]
+            for e in ext_s:
+                if prop == 'C09':
+                    acc.count('deps_checked')
+                    acc.count('deps_on_outside_successors')
+                if rt.end > e['start']:
+                    viol('C09', 'dependency-violated/outside-successor', f'task {rt.id} ends {rt.end} after its successor outside the WBS ({e["id"]}) starts {e["start"]}')
             if prop == 'C09':
                 acc.ev()
             for k in own_s + inh_s:
@@ -775,7 +788,7 @@ def judge(prop, case, acc):
                     viol('C09', 'dependency-violated' + ('/inherited' if k in inh_s and k not in own_s else ''),
                          f'task {rt.id} ends {rt.end} after its successor {spec[k]["id"]} starts {T[k].start}')
             if prop == 'C09' and bal and not t['milestone']:
-                due = min([T[k].start for k in own_s + inh_s] + [case['date']])
+                due = min([T[k].start for k in own_s + inh_s] + [e['start'] for e in ext_s] + [case['date']])
                 acc.count('late_pack_checked')
                 d = day(rt.end) + td(days=1)
                 partial = False
@@ -1025,7 +1038,9 @@ def gen_c14_case(rnd):
     if k < 0.72:
         case = sched.gen_case(rnd, 'fwd', n_max=6, klass='wellformed', externals=False)
         n = len(case['tasks'])
-        case['externals'] = [{'id': 100, 'start': rnd.choice([None, case['date']]), 'end': None, 'succ': [rnd.randrange(n)], 'estimate': None}]
+        # the outside task is another object whatever its id: half of the time it carries the id of a member
+        case['externals'] = [{'id': rnd.choice([100, case['tasks'][rnd.randrange(n)]['id']]), 'start': rnd.choice([None, case['date']]), 'end': None,
+                              'succ': [rnd.randrange(n)], 'estimate': None}]
         if rnd.random() < 0.3:
             case['externals'][0]['start'] = None
             case['externals'][0]['end'] = case['date']
@@ -1067,6 +1082,10 @@ def gen_c14_case(rnd):
 # ------------------------------------------------------------------------------------------
 FWD_ONLY = ('C02', 'C08')
 BWD_ONLY = ('C09',)
+# properties that speak about every backward schedule, dates typed on leaves included (C04's and C09's backward clauses
+# are about the dates the run assigns, so their workloads keep backward inputs free of user dates)
+BWD_FIXED = ('C07', 'C03', 'C06')
+TASK_CAPPED = ('C07', 'C06', 'C04', 'C02')
 
 
 def run_shard(prop, tier, seed, shard, nshards, budget, acc):
@@ -1081,7 +1100,16 @@ def run_shard(prop, tier, seed, shard, nshards, budget, acc):
             case = gen_c14_case(rnd)
         else:
             direction = 'fwd' if prop in FWD_ONLY else 'bwd' if prop in BWD_ONLY else None
-            case = sched.gen_case(rnd, direction, n_max=n_max)
+            case = sched.gen_case(rnd, direction, n_max=n_max, bwd_fixed=prop in BWD_FIXED)
+            if prop in TASK_CAPPED and not case['decimal'] and rnd.random() < 0.12:
+                # resources that offer some tasks only a share of the day (IResource.get_available_units(date, task)); only the
+                # checks whose clauses do not speak about "the" capacity of a day ask for this class
+                lv = [t for i, t in enumerate(case['tasks']) if not any(x['parent'] == i for x in case['tasks']) and not t['milestone']]
+                if lv:
+                    case['task_caps'] = {str(t['id']): rnd.choice([0.5, 0.25, 0.5, 0.125]) for t in rnd.sample(lv, rnd.randint(1, min(3, len(lv))))}
+                    if rnd.random() < 0.6:
+                        for t in case['tasks']:
+                            t['resource'] = case['tasks'][0]['resource']
             case['warm'] = rnd.random() < 0.3
             case['alias_probe'] = rnd.random() < 0.1
             if prop == 'C08' and rnd.random() < 0.7:
